@@ -220,6 +220,65 @@ func runC12(h rmHist) (res *c12result, opens int64, loads int64) {
 	// loading): the reopened store reports the same commit id and content, and its next Commit is
 	// version latest+1 with the content written, which a further reopen reports too
 	final := s.rs.LastCommitID()
+	// one handle moved back and forth: LoadVersion(u) for every retained older version shows that
+	// version, LoadLatestVersion() afterwards shows the latest again; and a second handle opened on the
+	// same database before a further commit of the first one catches up with LoadLatestVersion()
+	if final.Version >= 1 {
+		dbh := crashdb.FromSnapshot(db.Snapshot(), nil)
+		opens++
+		a, err := rmOpen(dbh, h.N, h.Pruning, -1)
+		if err != nil {
+			return fail("reopen-latest-fails", "reopen at %d fails: %v", final.Version, err)
+		}
+		vsnap := func(u int64) []kvMap {
+			if u == final.Version {
+				return models
+			}
+			return snaps[u]
+		}
+		for u := int64(1); u < final.Version; u++ {
+			if !rmRetained(u, final.Version, h.Pruning) || snaps[u] == nil {
+				continue
+			}
+			loads += 2
+			if err := a.rs.LoadVersion(u); err != nil {
+				return fail("retained-version-unreadable-on-live-handle", "LoadVersion(%d) on a handle at %d fails: %v", u, final.Version, err)
+			}
+			for i := 0; i < h.N; i++ {
+				if got, w := a.content(i), vsnap(u)[i].iterate(nil, nil, true); !pairsEqual(got, w) {
+					return fail("loaded-content-on-live-handle", "LoadVersion(%d) on a handle at %d: store %s holds [%s], committed [%s]", u, final.Version, rmName(i), pairsString(got), pairsString(w))
+				}
+			}
+			if err := a.rs.LoadLatestVersion(); err != nil {
+				return fail("load-latest-after-older-fails", "LoadLatestVersion() after LoadVersion(%d) fails: %v", u, err)
+			}
+			if lc := a.rs.LastCommitID(); lc.Version != final.Version || !bytes.Equal(lc.Hash, final.Hash) {
+				return fail("load-latest-after-older-commit-id", "LoadLatestVersion() after LoadVersion(%d) reports %d/%X, the latest commit is %d/%X", u, lc.Version, lc.Hash, final.Version, final.Hash)
+			}
+			for i := 0; i < h.N; i++ {
+				if got, w := a.content(i), models[i].iterate(nil, nil, true); !pairsEqual(got, w) {
+					return fail("load-latest-after-older-content", "LoadLatestVersion() after LoadVersion(%d): store %s holds [%s], latest [%s]", u, rmName(i), pairsString(got), pairsString(w))
+				}
+			}
+		}
+		opens++
+		b, err := rmOpen(dbh, h.N, h.Pruning, -1) // second handle on the same database
+		if err != nil {
+			return fail("reopen-latest-fails", "second handle at %d fails: %v", final.Version, err)
+		}
+		ma := models[0].clone()
+		rmApplyChoice(a.kv(0), ma, 2)
+		cid := a.rs.Commit()
+		if err := b.rs.LoadLatestVersion(); err != nil {
+			return fail("second-handle-load-latest-fails", "the second handle's LoadLatestVersion() after the first committed %d fails: %v", cid.Version, err)
+		}
+		if lc := b.rs.LastCommitID(); lc.Version != cid.Version || !bytes.Equal(lc.Hash, cid.Hash) {
+			return fail("second-handle-behind", "a second handle on the same database reports %d/%X after LoadLatestVersion(), the first handle committed %d/%X", lc.Version, lc.Hash, cid.Version, cid.Hash)
+		}
+		if got, w := b.content(0), ma.iterate(nil, nil, true); !pairsEqual(got, w) {
+			return fail("second-handle-content", "second handle after LoadLatestVersion(): store %s holds [%s], committed [%s]", rmName(0), pairsString(got), pairsString(w))
+		}
+	}
 	// a store mounted for the first time on a database that already holds commits (an upgrade that
 	// adds a module): its own version numbering starts below the multistore's. The reopened store
 	// reports the last commit and the old content; every further commit is reported by a fresh reopen
@@ -263,6 +322,21 @@ func runC12(h rmHist) (res *c12result, opens int64, loads int64) {
 			for i := 0; i <= h.N; i++ {
 				if got, w := sr.content(i), ml[i].iterate(nil, nil, true); !pairsEqual(got, w) {
 					return fail("reopen-content-with-added-store", "a store was mounted at version %d; reopened after commit %d store %s holds [%s], committed [%s]", final.Version, want, rmName(i), pairsString(got), pairsString(w))
+				}
+			}
+			// the version that predates the added store, while the policy retains it: loads, with the
+			// content the old stores had then (what the added store shows at a version it did not exist
+			// in is not judged)
+			if rmRetained(final.Version, want, h.Pruning) {
+				loads++
+				so, err := rmOpen(crashdb.FromSnapshot(dbl.Snapshot(), nil), h.N+1, h.Pruning, final.Version)
+				if err != nil {
+					return fail("version-before-added-store-unreadable", "a store was mounted at version %d; at version %d the retained version %d no longer loads: %v", final.Version, want, final.Version, err)
+				}
+				for i := 0; i < h.N; i++ {
+					if got, w := so.content(i), models[i].iterate(nil, nil, true); !pairsEqual(got, w) {
+						return fail("version-before-added-store-content", "a store was mounted at version %d; LoadVersion(%d) at version %d: store %s holds [%s], committed [%s]", final.Version, final.Version, want, rmName(i), pairsString(got), pairsString(w))
+					}
 				}
 			}
 		}
@@ -462,7 +536,7 @@ func C12(tier string) int {
 	run.Set("jobs", desc)
 	run.Set("reopens", opens)
 	run.Set("load_version_calls", loads)
-	run.Set("rule", "every write history (per version and per substore one of {nothing, k1=a, k1=b, delete k1, k2=a, k1=a+delete k2}) over N IAVL substores + 1 transient store, V versions, each of 7 pruning options, with store names s1,s2,... and again (N >= 2) with names that are proper prefixes of each other (acc, accounts); after every commit: reopen on a copy (LoadLatestVersion) and LoadVersion(u) for every u in 1..latest+1; before every commit: every retained version loaded on a CopyStore of the live multistore and read through CacheMultiStoreWithVersion while the writes are pending; at the end: failed loads on the live handle; a reopen with one more substore mounted for the first time followed by four commits, each checked by a fresh reopen; and a reopen under every other pruning option (eagerly, lazily, or with the options changed on the loaded store) followed by three commits, after which the versions committed since are loaded: those the new options retain must read as committed, the others must be gone. Histories are distinct by construction; non-trivial = the content of some store differs between two versions (a write or delete that takes effect)")
+	run.Set("rule", "every write history (per version and per substore one of {nothing, k1=a, k1=b, delete k1, k2=a, k1=a+delete k2}) over N IAVL substores + 1 transient store, V versions, each of 7 pruning options, with store names s1,s2,... and again (N >= 2) with names that are proper prefixes of each other (acc, accounts); after every commit: reopen on a copy (LoadLatestVersion) and LoadVersion(u) for every u in 1..latest+1; before every commit: every retained version loaded on a CopyStore of the live multistore and read through CacheMultiStoreWithVersion while the writes are pending; at the end: failed loads on the live handle; one handle loaded at every retained older version and back at the latest; a second handle on the same database catching up after a commit of the first; a reopen with one more substore mounted for the first time followed by four commits, each checked by a fresh reopen; and a reopen under every other pruning option (eagerly, lazily, or with the options changed on the loaded store) followed by three commits, after which the versions committed since are loaded: those the new options retain must read as committed, the others must be gone. Histories are distinct by construction; non-trivial = the content of some store differs between two versions (a write or delete that takes effect)")
 	run.Sample(rmHist{N: 2, Choice: [][]int{{1, 4}, {3, 0}, {2, 5}}, Pruning: [2]int64{0, 2}}.String())
 	run.Assume("MemDB stands in for the on-disk database", "retention rule: commit w releases version w-1-keepRecent unless it is a multiple of keepEvery (store/iavl documentation)", "LoadVersion(0) is not judged (0 is not a committed version)")
 	return run.Finish()
